@@ -7,6 +7,9 @@ ids = [p["id"] for p in props]
 
 # id -> (engine, technique, level text, level note, design ref)
 CLAIMED = {
+ "C17": ("E-GZ", "proptest stateful generation of gz operation sequences (write and read side) on real files; in-memory model of the logical stream + reference gzip parser/decoder as oracle, zlib-ng's gz layer in lock-step as arbiter",
+         "exploration: write side - every return value/gztell equals the model and the file is a valid sequence of gzip members (or plain bytes in transparent mode) decoding to the logical stream, for all open modes, gzbuffer sizes from 8 bytes, flushes incl. Z_FINISH (multi-member), gzsetparams, forward seeks, append; read side - gzread/gzfread/gzgetc/gzgets/gzungetc data, gztell, gzeof, gzdirect follow the logical stream of gzip/multi-member/garbage-suffixed/plain/empty files under arbitrary seeks and buffer sizes",
+         "a deviation from the model is reported only when zlib-ng agrees with the model; where the manual is silent (push-back capacity, gzgets(len 1), seeks relative to a pending forward seek, truncated/corrupt files) the model has no opinion and differences are only counted; glibc M_PERTURB makes uninitialised reads deterministic", "DESIGN.md 6 (C17)"),
  "C19": ("E-BACK", "proptest generation of raw deflate byte strings (valid for the window, single-fault, distances beyond the window, encoder output, mutated, noise) x window bits x input-callback slicing x output-callback abort; guard-paged window and input slices; reference decoder / construction as oracle",
          "exploration: for every input no signal/abort, out() only ever sees regions inside the caller's window, canaries beside the window intact, callbacks bounded; for streams valid for the window and non-distance faults the bytes handed to out(), the status (STREAM_END / DATA_ERROR / BUF_ERROR with NULL or non-NULL next_in) and the unused input correspond to inflate's verdict",
          "for streams with a too-far distance only safety and termination are claimed (inflateBack, like zlib's, does not promise an error for distances within the window but beyond the produced data)", "DESIGN.md 6 (C19)"),
